@@ -399,7 +399,9 @@ def c01_3(c: Ctx) -> None:
                 continue
             var = (st.targets[0] if isinstance(st, ast.Assign) else st.target).id  # type: ignore[union-attr]
             for n in g.nodes_of(st):
-                p = q.pair_search(g, n, lambda x: process_event_call_with(x, var), exc_ok=lambda e: False,
+                # what a queue hands out is an event, never None (only dispatch() puts, and it puts the event it validated): a `None` test on the dequeued name is decided
+                nn = Facts(lambda a, var=var: a == var or a.startswith('__inl_'), rhs_value=lambda v: 'NN' if isinstance(v, (ast.Call, ast.Await)) and call_name(v.value if isinstance(v, ast.Await) else v) in ('get', 'get_nowait') else None, cg=c.cg, unit=u)
+                p = q.pair_search(g, n, lambda x: process_event_call_with(x, var), facts=nn, exc_ok=lambda e: False,
                                   exits=lambda x: x.kind in ('exit', 'raise_exit') or (x is not n and x.kind in ('for', 'while') and q.lexically_in(st, x.ast)))
                 if p is None:
                     c.ok(where(u, st), f'every normal path from `{U(st)}` reaches process_event({var})')
